@@ -81,6 +81,18 @@ impl VelocityControl {
         proof { assert(self.buckets@.take(self.buckets@.len() as int) == self.buckets@); }
 //@end
 
+//@fn vls-core/src/util/velocity.rs :: impl VelocityControl :: clear props=C12
+//@include frag/c/vc_clear.rs
+//@sub /(?s)for bucket in self\.buckets\.iter_mut\(\) \{\s*\*bucket = 0;\s*\}/ => let vx_n = self.buckets.len(); for vx_i in 0..vx_n { self.buckets.set(vx_i, 0); }
+//@loop 1 iter=it
+        invariant
+            vx_n == old(self).buckets@.len(), self.buckets@.len() == vx_n, it.snapshot.end == vx_n,
+            forall|j: int| 0 <= j < it.index@ ==> self.buckets@[j] == 0,
+            self.start_sec == old(self).start_sec, self.bucket_interval == old(self).bucket_interval, self.limit == old(self).limit,
+//@proof blockend /let vx_n = self\.buckets\.len\(\);/
+        proof { assert(self.buckets@ =~= zeros(old(self).buckets@.len())); }
+//@end
+
 //@fn vls-core/src/util/velocity.rs :: impl VelocityControl :: insert props=C12,C10
 //@include frag/c/vc_insert.rs
 //@loop 1 iter=it
